@@ -14,7 +14,9 @@ RULE = ('family = one generated indexable pipeline (source, 1-3 stages from map 
         'catch(E) with E a single type, a tuple or a subclass, optionally a downstream '
         'map; fault sequences: EVERY single failing position, then pairs and random '
         'subsets, with exception kinds inside and outside E; value and items() '
-        'iteration, full iteration twice and stop after k. Oracle: position by '
+        'iteration, full iteration twice and stop after k; in 20% of the pipelines a '
+        'per-epoch reshuffle lies directly below the catch, and some plans contain '
+        'examples that fail in one of the two passes only. Oracle: position by '
         'position evaluation of an independent build of the upstream pipeline '
         '(no catch): survivors in order, the first foreign exception after exactly the '
         'surviving predecessors and as the very injected object. Plus: lazy filter, '
